@@ -5,6 +5,7 @@ import RR.Model.Dsp
 import RR.Model.Conv
 import RR.Model.FileSrc
 import RR.Model.AuBlock
+import RR.Model.Gated
 import RR.Model.Util
 
 /-!
@@ -197,7 +198,10 @@ def registry (name : String) (p : List Nat) : Option Block :=
       | none =>
         match convRegistry name p with
         | some b => some b
-        | none => sourceRegistry name p
+        | none =>
+          match gatedRegistry2 name p with
+          | some b => some b
+          | none => sourceRegistry name p
 
 /-- `repeat <n or inf> ; a ; d ; c …`: the `Repeat` API -/
 def handleRepeat (args : String) : String :=
